@@ -112,6 +112,7 @@ func Generate(rng *rand.Rand, i int, thorough bool) *p2prig.Scenario {
 	if rng.Intn(4) == 0 {
 		honest.VersionLag = 1 + rng.Intn(5) // the honest peer finds blocks while the service syncs from it
 	}
+	honest.IgnoreStop = i%5 == 4 // "all that remain or at most 2000": the answer does not end at the stop hash
 	linear := true
 	nPeers := 1
 	if s.Engine == "legacy" {
